@@ -58,6 +58,15 @@ def cases(tier, seed):
                     gp = dict(gp, prize_type="const")  # distance-based prizes are undefined (0/0) when every node sits on the depot
                 n_ = rnd.choice([6, 10, 20])
                 out.append(dict(cfg=dict(env=env_, n=n_ + (n_ % 2 if env_ == "pdp" else 0), sampler="|".join(f"{k}={v}" for k, v in sorted(gp.items()) if k not in ("min_loc", "max_loc"))), gp=gp, B=16, s=rnd.randrange(10**6)))
+    # documented generator switches no default configuration sets: FJSP with independent processing times / narrow eligibility,
+    # FLP in coordinate boxes that are not anchored at the origin
+    for me in (1, 2, 3):
+        for r in range(reps):
+            out.append(dict(cfg=dict(env="fjsp", jobs=5, mas=4, min_ops=2, max_ops=4, mask_no_ops=True, n=20, same_mean=False, max_elig=me, pmin=1, pmax=rnd.choice([9, 20])), B=64, s=rnd.randrange(10**6)))
+            out.append(dict(cfg=dict(env="fjsp", jobs=5, mas=4, min_ops=2, max_ops=4, mask_no_ops=True, n=20, same_mean=True, max_elig=me, min_elig=1, pmin=2, pmax=9), B=32, s=rnd.randrange(10**6)))
+    for box in ((-1.0, 1.0), (-3.0, -1.0), (2.0, 5.0), (-0.5, 0.25)):
+        for r in range(reps):
+            out.append(dict(cfg=dict(env="flp", n=rnd.choice([8, 20]), k=3, box=box), B=16, s=rnd.randrange(10**6)))
     # odd requested sizes for the paired problems: the generators document rounding up to the next even number
     for env_ in ("pdp", "mdcpdp"):
         for n_ in ((5, 9) if q else (3, 5, 7, 9, 11, 21)):
